@@ -265,4 +265,68 @@ Proof.
            intros ? G [A B]; unfold mcrel; cbn; split; [exact A|]; intros ->;
            destruct (B eq_refl) as (? & ? & ?);
            try (repeat split; assumption)).
-  Show.
+  all: repeat match goal with
+              | G0 : get_task 0 ?ts = Some ?a, G1 : get_task 0 ?ts = Some ?b |- _ => rewrite G0 in G1; inversion G1; subst; clear G1
+              end.
+  all: try match goal with A : t_mccoy ?y = true <-> 0 = 0 |- _ => destruct A as [_ A]; specialize (A eq_refl) end.
+  all: mc_where.
+  all: unfold migrate_case_of in *; mc_finish.
+Qed.
+
+Fixpoint all_reads_plausible (st : state) (tr : list label) : Prop :=
+  match tr with
+  | [] => True
+  | l :: r => reads_plausible st l = true /\ match step st l with Some st' => all_reads_plausible st' r | None => True end
+  end.
+
+Lemma mc_inv_init ns nw ac : mc_inv (init ns nw ac).
+Proof.
+  split; [apply refs_ok_init|]. split; [|split].
+  - intros t x G. destruct t; cbn in G; inversion G; subst. unfold mcrel; cbn. split; [tauto|auto].
+  - intros l [X|[]]. inversion X; subst. exact I.
+  - cbn. lia.
+Qed.
+
+Lemma mc_inv_step st l st' : mc_inv st -> reads_plausible st l = true -> step st l = Some st' -> mc_inv st'.
+Proof.
+  intros I RP H. split; [eapply refs_ok_step; [apply I|eauto]|]. split; [eapply Mt_step; eauto|].
+  split; [eapply Mp_step; eauto|]. destruct I as (_ & _ & _ & Np). pose proof (next_mono _ _ _ H). lia.
+Qed.
+
+Lemma mc_inv_run tr : forall st st', mc_inv st -> all_reads_plausible st tr -> run st tr = Some st' -> mc_inv st'.
+Proof.
+  induction tr as [|l r IH]; cbn; intros st st' I RP H; [inversion H; subst; auto|].
+  destruct (step st l) as [s1|] eqn:E; [|discriminate]. destruct RP as [RP1 RP2].
+  apply (IH s1 st'); [eapply mc_inv_step; eauto|exact RP2|exact H].
+Qed.
+
+(* mccoy_worker0, for every run: every execution of the main task is on worker 0 of shepherd 0.
+   Hypothesis all_reads_plausible: a read of shepherd 0's `active` flag returns true (nobody ever writes that flag:
+   qthread_disable_shepherd(0) is refused - shepherd0_never_disabled); it holds for every real execution whatever the timing. *)
+Theorem mccoy_worker0 ns nw ac tr st s w t got st' x :
+  run (init ns nw ac) tr = Some st -> all_reads_plausible (init ns nw ac) tr ->
+  step st (LExec s w t got) = Some st' -> get_task t st.(tasks) = Some x -> x.(t_mccoy) = true ->
+  s = 0 /\ w = 0.
+Proof.
+  intros R RP H G M. destruct (mc_inv_run _ _ _ (mc_inv_init ns nw ac) RP R) as (_ & Mt & Mp & _).
+  destruct (Mt _ _ G) as [A _]. apply A in M. subst t.
+  cbn [step] in H. rewrite G in H. inv_step H; use_moves; mc_where; auto.
+Qed.
+
+(* the main task is never found anywhere but in shepherd 0's queue (as an unstealable node), in the hands of worker (0,0),
+   or suspended; in particular no other shepherd's queue ever holds it *)
+Theorem mccoy_confined ns nw ac tr st l :
+  run (init ns nw ac) tr = Some st -> all_reads_plausible (init ns nw ac) tr -> In (0, l) st.(places) -> mccoy_place l.
+Proof.
+  intros R RP X. destruct (mc_inv_run _ _ _ (mc_inv_init ns nw ac) RP R) as (_ & _ & Mp & _). auto.
+Qed.
+
+(* non-vacuity of the hypothesis and of the reachable situation: the main task blocks, is woken by a task running on
+   shepherd 1, is dequeued by worker (0,0) and executed there *)
+Example mccoy_example :
+  let row := mkRow true false true false false 0 0 false in
+  let tr := [LSpawn (Some (0, 0)) row (Some 1) 0%N 5%N false; LMayBlock 0; LBlocked 0 0 0; LTake 1 0 1 1;
+             LExec 1 0 1 (Some (Ptr 5)); LWake 1 0 0 1; LTake 0 0 0 0] in
+  all_reads_plausible (init 2 2 1024) tr /\
+  exists st, run (init 2 2 1024) tr = Some st /\ exists st', step st (LExec 0 0 0 None) = Some st'.
+Proof. cbn. repeat split; auto. eexists; split; [reflexivity|]. eexists. vm_compute. reflexivity. Qed.
